@@ -105,6 +105,11 @@ def run(ck, ctx):
                      "or was cleared on every path to the push - or every pop side clears before handing it out; a handler releases its "
                      "input buffer with whatever unparsed bytes the last client left in it, and the next connection that acquires the "
                      "buffer would have them prepended to its own first command")
+    ck.rule("R04.12", "who may empty the connection's buffers: outside the read loop itself (`run`, where R04.3/R04.4 tie every discard to an "
+                      "error reply and every clear of write_buffer to a successful write) no function of the handler clears, truncates, "
+                      "takes or splits `write_buffer`, and none clears or truncates the input `buffer` - while a command executes, "
+                      "write_buffer holds the not-yet-flushed replies to the earlier commands of the same read and buffer holds the "
+                      "pipelined commands behind it")
     from . import bounds as _bounds
     ck.rule("R04.10", _bounds.TEXT % "the connection handler (recognisers, collectors, stub-command dispatch) - shared with C15 R15.11")
     ck.nd("that each reply equals the stand-alone reply (C01/C03)")
@@ -125,6 +130,7 @@ def run(ck, ctx):
         from . import c15
         c15.prefix_rule(ck, prog, cfg, "R04.7")
         _r049(ck, prog, cfg)
+        _r0412(ck, prog, cfg)
         _bounds.rule(ck, prog, cfg, "R04.10", ("src/production/connection_optimized.rs",),
                      "a read that ends right behind a command header (or a malformed frame)", floor=9, tag=_tag(cfg))
 
@@ -592,3 +598,37 @@ def _r049(ck, prog, cfg):
                  "a buffer is returned to the pool on a path that does not clear it (and the acquiring side does not clear either): the next "
                  "connection that takes this buffer starts with the previous client's unparsed bytes (or unsent replies) in front of its own",
                  f.where(t["ln"]), detail="fresh buffer" if fresh else ("clear() dominates the push" if cleared else "every pop clears"))
+
+
+def _r0412(ck, prog, cfg):
+    runb = _run_body(prog)
+    own = {f.id for f in prog.with_children(runb)} | {runb.id}
+    n = k = 0
+    for f in prog.lib_fns():
+        if f.file != "src/production/connection_optimized.rs" or "::tests::" in f.id or f.id in own:
+            continue
+        if "OptimizedConnectionHandler" not in f.id:
+            continue
+        n += 1
+        for b, t in f.calls():
+            if not t.get("args"):
+                continue
+            shrink_all = is_callee(t, r"BytesMut::(clear|truncate|split|split_to|split_off|advance|resize|set_len)$", r"Buf>::advance$", r"^std::mem::(take|replace|swap)::<bytes::BytesMut>$")
+            hard = is_callee(t, r"BytesMut::(clear|truncate|split|resize|set_len)$", r"^std::mem::(take|replace|swap)::<bytes::BytesMut>$")
+            for a in t["args"][:2]:
+                if shrink_all and _is_buf(f, a, "write_buffer"):
+                    k += 1
+                    fid = re.sub(r"\{closure#\d+\}", "{closure}", f.id.replace(H, ""))
+                    ck.bad("R04.12", "%s:write_buffer.%s#%d%s" % (fid, callee(t).rsplit("::", 1)[-1].split("<")[0], k, _tag(cfg)),
+                           "write_buffer is emptied/shortened outside the read loop: at that moment it holds the unflushed replies to the commands "
+                           "that preceded this one in the same read - they are never sent (the reply count depends on how the stream was split "
+                           "into reads)", f.where(t["ln"]))
+                elif hard and _is_buf(f, a, "buffer"):
+                    k += 1
+                    fid = re.sub(r"\{closure#\d+\}", "{closure}", f.id.replace(H, ""))
+                    ck.bad("R04.12", "%s:buffer.%s#%d%s" % (fid, callee(t).rsplit("::", 1)[-1].split("<")[0], k, _tag(cfg)),
+                           "the input buffer is cleared outside the read loop: pipelined commands that arrived in the same read behind the current "
+                           "one are dropped before they are parsed and get no reply", f.where(t["ln"]))
+    ck.floor("R04.12:functions-scanned" + _tag(cfg), n, 10)
+    if k == 0:
+        ck.ok("R04.12", "buffers-emptied-only-by-the-read-loop" + _tag(cfg), "%d handler functions scanned" % n)
